@@ -318,6 +318,14 @@ class C14(Engine):
 				p = (j + 0.5) / n
 				ops += [{'op': 'export', 'pick': p}, {'op': 'short-read', 'pick': p, 'frac': 0.5}, {'op': 'module-unload', 'pick': p}, {'op': 'import-old', 'pick': p}]
 			cases.append({'engine': 'session', 'pool': pool, 'ops': ops})
+		# prefix-related sibling modules (src.a / src.ab / src.a_b): taking one module's symbols away must leave the others' alone
+		fan = pools.gen_pool(random.Random(9), shape='fan', n_variants=3, allow_invalid=False, names=['src.d', 'src.ab', 'src.a', 'src.a_b'], swap_p=0.0)
+		for unload in ('db-unload', 'module-unload'):
+			ops = []
+			for j in range(10):
+				p = (j + 0.5) / 10
+				ops += [{'op': 'export', 'pick': p}, {'op': unload, 'pick': p}, {'op': 'import', 'pick': p}, {'op': 'import', 'pick': p}]
+			cases.append({'engine': 'session', 'pool': fan, 'ops': ops})
 		ex = pools.example_pool()
 		cases.append({'engine': 'history', 'pool': ex, 'ops': [run, run, {'op': 'edit', 'm': 'example.json', 'v': 1, 'dt': 10**9}, run, run]})
 		ops = []
